@@ -273,4 +273,6 @@ func checkC07(c *vh.Ctx) {
 	// fertiliser bookkeeping over a run (c07_fertpool.go); after the older stages so that their random streams are unchanged
 	fertPoolKernelStage(c, c.N(1500, 20000))
 	fertPoolRunStage(c, c.N(10, 100))
+	// harvest branch of Nitro, resid, pinit (c07_harvest.go)
+	harvestStages(c)
 }
